@@ -33,6 +33,10 @@ from xml.etree import ElementTree as ET
 from .. import common
 from .. import odxgen as G
 
+_SESSION = None
+_SESSION_DB = None
+_SESSION_CALLS = 0
+
 PROPERTY = "C18"
 LEVEL = "exploration"
 RULE = ("generated ODX containers (1-2 base variants x 1-6 services; requests = 1-2 CODED-CONST + "
@@ -748,7 +752,17 @@ def judge_layer_pair(col: common.Collector, new: Any, old: Any, kind: str,
                 "layer": new.short_name, "effective_kind": kind,
                 "expected": {k: v for k, v in exp.items()}})
     try:
-        res = Comparison().compare_diagnostic_layers(new, old)
+        # the CLI uses ONE Comparison object for a whole session of comparisons; every other
+        # evaluation therefore goes through a long-lived object shared by all comparisons of
+        # this worker, so that results which depend on the history of the object show up
+        global _SESSION, _SESSION_CALLS
+        _SESSION_CALLS += 1
+        if _SESSION is None:
+            _SESSION = Comparison()
+        cmp_obj = _SESSION if _SESSION_CALLS % 2 else Comparison()
+        det["comparison_object"] = "long-lived (call #%d)" % _SESSION_CALLS if _SESSION_CALLS % 2 \
+            else "fresh"
+        res = cmp_obj.compare_diagnostic_layers(new, old)
         obs = observe(res)
     except Exception as x:
         det["problem"] = f"{type(x).__name__}: {x}"
@@ -816,7 +830,10 @@ def judge_databases(col: common.Collector, db_new: Any, db_old: Any,
     det["call"] = ("c = Comparison(); c.diagnostic_layer_names = {all layer names}; "
                    "c.compare_databases(db_new, db_old)")
     try:
-        c = Comparison()
+        global _SESSION_DB
+        if _SESSION_DB is None:
+            _SESSION_DB = Comparison()
+        c = _SESSION_DB if _SESSION_CALLS % 3 == 0 else Comparison()
         c.diagnostic_layer_names = {dl.short_name for dl in db_new.diag_layers} | {
             dl.short_name for dl in db_old.diag_layers}
         res = c.compare_databases(db_new, db_old)
